@@ -17,7 +17,8 @@ def Q1(ctx):
     """Writers of the channel message counter: 0 at creation, checked_add(1) in send, checked_sub(1) in recv."""
     prog = ctx.prog
     n = 0
-    allowed = {"rt::mpsc::Channel::new": None, "rt::mpsc::Channel::send": "checked_add", "rt::mpsc::Channel::recv": "checked_sub"}
+    allowed = {"rt::mpsc::Channel::new": None, "rt::mpsc::Channel::send": "checked_add", "rt::mpsc::Channel::recv": "checked_sub",
+               "rt::mpsc::Channel::send_failed": "checked_sub"}
     for w in prog.writers().get((CSTATE, "msg_cnt"), []):
         fk = enclosing_fn(w["fn"])
         body = prog.fns[w["fn"]].body
@@ -42,6 +43,58 @@ def Q1(ctx):
         else:
             ctx.bad("Q1", fk, "message counter must change by exactly one via %s (found %s)" % (want, txt[:100]), site_str(prog, w["fn"], w["bb"]), detail="step")
     ctx.floor("Q1", n, 3, "new, send, recv")
+
+
+def Q5(ctx):
+    """A message the std channel refuses (the receiver is gone: `send` returns `Err(SendError(msg))`, the message goes back to the
+    caller) must not stay counted in the model: on the Err path of Sender::send the count taken by rt::Channel::send is given
+    back, otherwise a program that holds nothing is reported as `Messages leaked`."""
+    prog = ctx.prog
+    fk = "sync::mpsc::Sender::<T>::send"
+    fn = need_fn(ctx, "Q5", fk)
+    if fn is None:
+        return
+    body = fn.body
+    inst = prog.ident(fk)
+    std_send = [(b, t) for (b, t, c) in prog.sites(inst) if prog.callee_key(c) == "std::sync::mpsc::Sender::<T>::send"]
+    if not std_send:
+        ctx.missing("Q5", fk, "no call of the carrying std channel")
+        return
+    # functions of the modelled channel that take a message out of the count
+    dec = set()
+    for w in prog.writers().get((CSTATE, "msg_cnt"), []):
+        if w["kind"] == "assign":
+            e = rv_expr(prog, w) if w["stmt"]["k"] == "=" else ("call", callee_path(w["stmt"]), [prog.fns[w["fn"]].body.expr_of_operand(a) for a in w["stmt"].get("args", [])])
+            if "checked_sub" in canon(e) or " Sub" in canon(e):
+                dec.add(enclosing_fn(w["fn"]))
+    sb, st = std_send[0]
+    want = canon(("call", callee_path(st), [body.expr_of_operand(a) for a in st["args"]], sb))
+
+    def err_path(body_, b_, t_, e):
+        pol = True
+        while e[0] == "unop" and e[1] == "Not":
+            e = e[2]
+            pol = not pol
+        if e[0] == "discr" and canon(strip(e[1])) == want:
+            names = dict((n_, v_) for (v_, n_) in (e[3] or []))
+            tgt = [tb for (val, tb) in t_["targets"] if val == names.get("Err")]
+            return set(tgt) if tgt else {t_["otherwise"]}
+        if e[0] == "call" and e[2] and canon(strip(e[2][0])) == want:
+            if e[1].endswith("Result::<T, E>::is_err"):
+                return switch_targets_for(t_, pol)
+            if e[1].endswith("Result::<T, E>::is_ok"):
+                return switch_targets_for(t_, not pol)
+        return None
+    reached, _ = PEval(body, err_path).run(start=sb)
+    gives_back = [b for (b, t, c) in prog.sites(inst) if b in reached and b != sb and prog.callee_key(c) in dec and prog.callee_key(c) != "rt::mpsc::Channel::recv"]
+    tests = any(body.term(b)["k"] == "switch" and err_path(body, b, body.term(b), body.expr_of_operand(body.term(b)["op"])) is not None for b in range(body.n))
+    if gives_back and tests:
+        ctx.ok("Q5", fk, "a refused message is taken out of the modelled count again (%s)" % prog.callee_key(prog.insts[inst].calls[gives_back[0]]).split("::")[-1],
+               [site_str(prog, fk, gives_back[0])])
+    else:
+        ctx.bad("Q5", fk, "when the std channel refuses the message (receiver dropped: `Err(SendError(msg))`) the modelled channel keeps "
+                "counting it: the iteration ends with `Messages leaked` although the message went back to the caller", site_str(prog, fk, sb),
+                detail="uncompensated-error")
 
 
 def Q2(ctx):
@@ -107,3 +160,4 @@ def run(ctx):
     Q1(ctx)
     Q2(ctx)
     Q4(ctx)
+    Q5(ctx)
